@@ -456,6 +456,10 @@ pub fn align_to_cache_line(size: usize, cache_line_size: usize) -> usize {
 
 /// Detect cache hierarchy at runtime
 pub fn detect_cache_hierarchy() -> CacheHierarchy {
+    #[cfg(feature = "verif-hooks")]
+    if cfg!(miri) {
+        return CacheHierarchy::default();
+    }
     #[cfg(target_arch = "x86_64")]
     {
         detect_x86_cache_hierarchy()
